@@ -1,4 +1,6 @@
 import EpsicProofs.Lemmas.EigenCerts
+import EpsicProofs.Lemmas.JacobiSweep
+import Mathlib.Analysis.Real.Sqrt
 import EpsicProofs.Lemmas.Stokes
 import Mathlib.Algebra.Order.Field.Basic
 import Mathlib.Tactic.Positivity
@@ -174,5 +176,53 @@ theorem old_degenerate_divides_by_zero (s0 : K) : sdiv (1 : K) (0 : K) = .error 
 instance below takes the `s1`-axis: `q = (7, 2, 0, 0)`, `p = 2`, `2p(p+s1) = 16`, `m = 1/4`. -/
 example : Diagonalises (⟨7, 2, 0, 0⟩ : Quat ℚ) ⟨(1/4)*(2+2), 0, -(1/4)*0, (1/4)*0⟩ 2 :=
   branch2 ⟨7, 2, 0, 0⟩ 2 (1/4) (by norm_num) (by norm_num) (by norm_num)
+
+/-! ## The n×n real symmetric Jacobi solver (`Jacobi.jacobi` = `Jacobi (a, evec, eval)`)
+
+The model runs the whole solver (thresholds, skip/zero branch, rotations, the eigenvalue bookkeeping through `b` and `z`,
+up to 50 sweeps) and is compared bit for bit with the C++ at `Float`.  Over any linearly ordered field in which the
+leaves are exact (`LeafSpec`): for **every dimension, every symmetric input, and whatever number of sweeps is executed** -/
+
+/-- every rotation the solver performs is on a non-zero element, and its parameters are an exact plane rotation
+`(c, s = t c)`, `c² + s² = 1`, with `t` the root of `t² a_pq + t (d_q − d_p) − a_pq = 0` that annihilates `a_pq` -/
+theorem jacobi_rotation_parameters (L : Jacobi.SolverLeaves K) (hL : Jacobi.LeafSpec L) (p q pq : K) (hpq : pq ≠ 0) :
+    ∃ c t : K, 0 < c ∧ c*c*(1 + t*t) = 1 ∧ t*t*pq + t*(q - p) - pq = 0 ∧
+      Jacobi.calculateReal L.abs L.sqrt L.eq L.ltZero L.hundred p q pq = ⟨t*c, t*c/(1 + c), t*pq⟩ :=
+  Jacobi.calc_spec L hL p q pq hpq
+
+/-- the invariants hold in the state `Jacobi` returns: `a = E A₀ Eᵀ` entry by entry, the rows of `E` are orthonormal,
+`eval = diag a`, and `b + z = eval` -/
+theorem jacobi_invariants {n : Nat} (L : Jacobi.SolverLeaves K) (hL : Jacobi.LeafSpec L) (A₀ : Mat n n K)
+    (hA : ∀ i j, A₀ i j = A₀ j i) : Jacobi.Inv A₀ (Jacobi.jacobi L A₀) :=
+  Jacobi.jacobi_inv L hL A₀ hA
+
+/-- ... and after any number of sweeps from any state that satisfies them (so also for every intermediate state) -/
+theorem jacobi_invariants_every_sweep {n : Nat} (L : Jacobi.SolverLeaves K) (hL : Jacobi.LeafSpec L) (A₀ : Mat n n K)
+    (hA : ∀ i j, A₀ i j = A₀ j i) (fuel iter : Nat) (st : Jacobi.SolverState n K) (h : Jacobi.Inv A₀ st) :
+    Jacobi.Inv A₀ (Jacobi.iterate L fuel iter st) :=
+  Jacobi.iterate_inv L hL A₀ hA fuel iter st h
+
+/-- matrix form: `E Eᵀ = 1` and `E A Eᵀ` is the working matrix, always; at the `sum == 0` exit
+`E A Eᵀ = diag(λ)` and `A Eᵀ = Eᵀ diag(λ)` (the rows of `E` are eigenvectors for the returned eigenvalues) -/
+theorem jacobi_eigendecomposition {n : Nat} (L : Jacobi.SolverLeaves K) (hL : Jacobi.LeafSpec L)
+    (A₀ : Matrix (Fin n) (Fin n) K) (hA : A₀.transpose = A₀) :
+    let st := Jacobi.jacobi L A₀
+    let E : Matrix (Fin n) (Fin n) K := st.v
+    E * E.transpose = 1 ∧ E * A₀ * E.transpose = (st.a : Matrix (Fin n) (Fin n) K) ∧
+    (Jacobi.offSum L st.a = 0 →
+      E * A₀ * E.transpose = Matrix.diagonal st.d ∧ A₀ * E.transpose = E.transpose * Matrix.diagonal st.d) :=
+  Jacobi.jacobi_correct L hL A₀ hA
+
+/-- storing a matrix between steps (`Mat.freeze`/`Mat.thaw`, used by the model so that the driver runs in linear time)
+changes nothing -/
+theorem stored_matrix_is_the_matrix {n : Nat} (m : Mat n n K) : Mat.thaw (Mat.freeze m) = m := Mat.thaw_freeze m
+
+/-! non-vacuity: the real numbers with `Real.sqrt` satisfy `LeafSpec`; the solver's first rotation on
+`[[2,1],[1,2]]` has `θ = 0`, `t = 1`, `c = 1/√2`. -/
+noncomputable def realLeaves : Jacobi.SolverLeaves ℝ :=
+  ⟨fun x => |x|, Real.sqrt, fun a b => decide (a = b), fun x => decide (x < 0), fun a b => decide (a > b), 100, 1/5⟩
+example : Jacobi.LeafSpec realLeaves :=
+  ⟨fun _ => rfl, fun x hx => Real.mul_self_sqrt hx, fun x _ => Real.sqrt_nonneg x, fun _ _ => rfl, fun _ => rfl,
+   fun _ _ => rfl, by norm_num [realLeaves], by norm_num [realLeaves]⟩
 
 end Epsic.C10
